@@ -107,10 +107,14 @@ package app
 //@   assigns nothing
 
 // ---------- process object invariant (established by NewProcess) ----------
-//@ define procWF(p *Process) bool = p.procConf != nil && p.procState != nil && p.logBuffer != nil &&
+// the three contexts of a process are distinct, owned by their cancel functions, created before now, and
+// INDEPENDENT of each other (children of the background context): cancelling one never cancels another
+//@ define ctxWF(p *Process) bool =
 //@    cancelOf(p.runCancelFn) == p.procRunCtx && cancelOf(p.readyCancelFn) == p.procReadyCtx && cancelOf(p.readyLogCancelFn) == p.procLogReadyCtx &&
 //@    p.procRunCtx != p.procReadyCtx && p.procRunCtx != p.procLogReadyCtx && p.procReadyCtx != p.procLogReadyCtx &&
-//@    closeOnly(p.procStartedChan) && ctxSeq(p.procRunCtx) < ctxCount() && ctxSeq(p.procReadyCtx) < ctxCount() && ctxSeq(p.procLogReadyCtx) < ctxCount()
+//@    parentOf(p.procRunCtx) == bgCtx() && parentOf(p.procReadyCtx) == bgCtx() && parentOf(p.procLogReadyCtx) == bgCtx() &&
+//@    ctxSeq(p.procRunCtx) < ctxCount() && ctxSeq(p.procReadyCtx) < ctxCount() && ctxSeq(p.procLogReadyCtx) < ctxCount()
+//@ define procWF(p *Process) bool = p.procConf != nil && p.procState != nil && p.logBuffer != nil && closeOnly(p.procStartedChan) && ctxWF(p)
 
 // ---------- wait primitives (C01/C05) ----------
 //@ func (p *Process) waitForCompletion
@@ -234,7 +238,7 @@ package app
 //@   ensures notbefore: stops() == old(stops()) + 1 ==> deadlineHit(p.waitForStoppedCtx) && timeoutOf(p.waitForStoppedCtx) == p.procConf.ShutDownParams.ShutDownTimeout * 1000000000
 //@   ensures cancelled-nokill: !deadlineHit(p.waitForStoppedCtx) ==> stops() == old(stops())
 //@   ensures !held(p.mtxStopFn)
-//@   assigns p.waitForStoppedCtx, p.waitForStoppedFn, stops(), stopSig(stops()), stopParentOnly(stops()), ctxCount(), lastTimeout(), slept()
+//@   assigns p.waitForStoppedCtx, p.waitForStoppedFn, stops(), stopSig(stops()), stopParentOnly(stops()), ctxCount(), lastTimeout(), timeoutCtxs(), slept()
 
 //@ func (p *Process) doConfiguredStop
 //@   requires procWF(p)
@@ -249,7 +253,7 @@ package app
 //@   ensures kill: stops() == old(stops()) + 1 ==> stopSig(old(stops())) == 9
 //@   ensures daemon-notified: sends() == old(sends()) + ite(p.procConf.IsDaemon, 1, 0)
 //@   ensures notified-after-command: sendAtRuns() == runs()
-//@   assigns runs(), ranEnv(), ranDir(), lastRunFailed(), lastProcEnv(), lastEnviron(), stops(), stopSig(stops()), stopParentOnly(stops()), ctxCount(), lastTimeout(), slept(), sends(), sendAtRuns(), cancelCalls[*]
+//@   assigns runs(), ranEnv(), ranDir(), lastRunFailed(), lastProcEnv(), lastEnviron(), stops(), stopSig(stops()), stopParentOnly(stops()), ctxCount(), lastTimeout(), timeoutCtxs(), slept(), sends(), sendAtRuns(), cancelCalls[*]
 
 //@ func (p *Process) stopProcess
 //@   requires procWF(p) && unlocked(p)
@@ -327,8 +331,10 @@ package app
 
 //@ func (p *Process) waitForStdOutErr
 //@   param cancel as cancelfunc
+//@   ensures unbounded-for-foreground: !p.procConf.IsDaemon ==> timeoutCtxs() == old(timeoutCtxs())
+//@   ensures launch-timeout-for-daemons: p.procConf.IsDaemon ==> timeoutCtxs() == old(timeoutCtxs()) + 1 && lastTimeout() == p.procConf.LaunchTimeout * 1000000000
 //@   sets drains() := drains() + 1
-//@   assigns p.stdOutDone, p.stdErrDone, slept(), lastWait(), ctxCount(), lastTimeout(), cancelCalls[*]
+//@   assigns p.stdOutDone, p.stdErrDone, slept(), lastWait(), ctxCount(), lastTimeout(), timeoutCtxs(), cancelCalls[*]
 
 //@ func (p *Process) waitForDaemonCompletion
 //@   assigns slept(), lastWait()
@@ -541,12 +547,19 @@ package app
 //@ func withProcConf
 //@   sets lastProcConfOpt() := procConf
 //@   ensures result != nil
-//@ func NewProcess
+// NewProcess: the context part of the object invariant is PROVED from the body; that the option closures fill in
+// configuration, state and log buffer (they are opaque function values here) is an assumed clause.
+//@ func (p *Process) setUpProbes
 //@   flag trusted
-//@   ensures result != nil && fresh(result) && procWF(result) && bufWF(result.logBuffer) && unlocked(result)
-//@   ensures conf: result.procConf == lastProcConfOpt()
-//@   ensures not-done: !result.done
+//@   assigns p.liveProber, p.readyProber
+//@ func NewProcess
+//@   requires noLocks()
+//@   param opt as procopt
+//@   ensures fresh: result != nil && fresh(result) && unlocked(result)
+//@   ensures contexts: ctxWF(result)
+//@   ensures assumed-options-applied: result.procConf != nil && result.procState != nil && result.logBuffer != nil && bufWF(result.logBuffer) && closeOnly(result.procStartedChan) && result.procConf == lastProcConfOpt() && !result.done
 //@   assigns ctxCount()
+//@   loop 1 invariant idx >= -1 && proc != nil && fresh(proc) && unlocked(proc)
 
 //@ func (p *Process) getState
 //@   requires !held(p.stateMtx) && !held(p.timeMutex)
@@ -584,6 +597,7 @@ package app
 //@   requires noLocks() && runnerWF(p) && projKeyed(p)
 //@   ensures refused-running: old(name in p.runningProcesses) ==> result != nil && spawned(fntag("(*app.ProjectRunner).runProcess$1")) == old(spawned(fntag("(*app.ProjectRunner).runProcess$1"))) && p.runningProcesses[name] == old(p.runningProcesses[name])
 //@   ensures refused-unknown: !old(name in p.runningProcesses) && !(name in p.project.Processes) ==> result != nil && spawned(fntag("(*app.ProjectRunner).runProcess$1")) == old(spawned(fntag("(*app.ProjectRunner).runProcess$1"))) && !(name in p.runningProcesses)
+//@   ensures config-as-configured: result == nil ==> name in p.runningProcesses && p.runningProcesses[name].procConf.DependsOn == p.project.Processes[name].DependsOn && p.runningProcesses[name].procConf.Command == p.project.Processes[name].Command
 //@   ensures started: !old(name in p.runningProcesses) && name in p.project.Processes ==> result == nil && spawned(fntag("(*app.ProjectRunner).runProcess$1")) == old(spawned(fntag("(*app.ProjectRunner).runProcess$1"))) + 1
 
 // stop: unknown or not registered => error, nothing is signalled and no flag changes; otherwise the instance is
@@ -602,6 +616,7 @@ package app
 //@   ensures none-on-error: result != nil ==> spawned(fntag("(*app.ProjectRunner).runProcess$1")) == old(spawned(fntag("(*app.ProjectRunner).runProcess$1")))
 //@   ensures prev-stopped: old(name in p.runningProcesses) ==> abool(old(p.runningProcesses[name]).isStopped) && cancelled(old(p.runningProcesses[name]).procRunCtx)
 //@   ensures prev-exited: result == nil && old(name in p.runningProcesses) ==> old(p.runningProcesses[name]).done
+//@   ensures config-as-configured: result == nil ==> name in p.runningProcesses && p.runningProcesses[name].procConf.DependsOn == p.project.Processes[name].DependsOn && p.runningProcesses[name].procConf.Command == p.project.Processes[name].Command
 
 // ---------- C13: scaling ----------
 //@ func (p *Process) setName
@@ -764,11 +779,11 @@ package app
 // env_cmds: runs the configured commands and appends NAME=output to the global environment (C17); nothing else changes
 //@ func runCmd
 //@   param cancel as cancelfunc
-//@   assigns ctxCount(), lastTimeout(), cancelCalls[*], cancelled[*]
+//@   assigns ctxCount(), lastTimeout(), timeoutCtxs(), cancelCalls[*], cancelled[*]
 //@ func (p *ProjectRunner) prepareEnvCmds
 //@   requires noLocks()
 //@   ensures noLocks()
-//@   assigns types.Project.Environment[*], heap(Elem.Str), ctxCount(), lastTimeout(), cancelCalls[*], cancelled[*]
+//@   assigns types.Project.Environment[*], heap(Elem.Str), ctxCount(), lastTimeout(), timeoutCtxs(), cancelCalls[*], cancelled[*]
 //@   loop 1 invariant noLocks()
 //@ func (p *ProjectRunner) Run
 //@   requires noLocks() && p.project != nil && p.project.Processes != nil && p.project.ShellConfig != nil
